@@ -7,7 +7,8 @@ Space (every member is visited, nothing sampled):
   configs : the three tokenizer configurations of models/positions.py
   grammars: for every lexically valid text, every grammar of ``grammar_specs`` (trailing / leading
             nullable children, all-empty inner node, factorized rule with nullable remainder in both
-            factorization modes, a bracket-less ListProds, a ProdSequence)
+            factorization modes, empty production reached by roll-back out of a longer alternative as
+            last / first child, a bracket-less ListProds, a ProdSequence)
 Oracle: models/positions.py (own scanner, own line arithmetic).  Obligations per (text, form, config):
   * real token list == reference token list (names and spans; values are not judged), ``$END$`` empty,
     not before the end of the last token, inside the text
@@ -30,9 +31,9 @@ ID = "C04"
 TITLE = "Source positions are exact and cover the text"
 TECHNIQUE = "bounded exhaustive text enumeration against a reference position calculator"
 DESIGN_REF = "§2 C04"
-LEVEL_TEXT = ("Every text of up to n pieces over a 10-piece alphabet (words, blanks, line breaks, quoted "
-              "strings, comment openers/closers, an unmatched character), as str and as list of lines, "
-              "under three tokenizer configurations and eight grammars, is tokenized and parsed by the "
+LEVEL_TEXT = ("Every text of up to n pieces over a 13-piece alphabet (words, blanks, line breaks, form feed and "
+              "U+2028, quoted strings and a lone quote, comment openers/closers, an unmatched character), as "
+              "str and as list of lines, under three tokenizer configurations and ten grammars, is tokenized and parsed by the "
               "real code; every token, leaf, empty node and inner node span and every get_orig_text "
               "result is compared with an independent position calculator.")
 LEVEL_NOTE = ("Small-scope: texts longer than the piece bound, other token patterns and wider characters "
@@ -46,6 +47,8 @@ RULE = ("case = one (text, input form, tokenizer configuration); texts are disti
 ASSUMPTIONS = [
     "a text has at least one line; a list of lines contains no line-break characters",
     "token patterns never match the empty string",
+    "a line ends at a line-feed only (the tokenizer splits a str at '\\n', get_orig_text and the list form "
+    "do the same); form feed, U+2028 and the like are ordinary characters of a line",
     "whether trailing blanks of a line are tokenized is not fixed by the property: both accepted",
     "an unclosed span token is outside the statement: counted, not judged",
     "token values and ParsingError positions are not compared (not part of the statement)",
@@ -56,60 +59,79 @@ REQUIRED_FEATURES = [
     "trailing-blanks", "span:closes-same-line", "span:closes-later-line", "span:opener-first-on-line",
     "value-narrower-than-match", "eol-comment", "lexical-error", "lexical-error:line>1",
     "tree:empty-node", "tree:empty-last-child", "tree:empty-first-child", "tree:all-empty-inner-node",
-    "tree:empty-node-at-end", "tree:empty-node-before-skipped-text", "tree:list-template",
+    "tree:empty-node-at-end", "tree:empty-node-before-skipped-text",
+    "tree:empty-node-by-rollback:last-child", "tree:empty-node-by-rollback:first-child",
+    "exotic-line-break:in-skipped-whitespace", "exotic-line-break:in-eol-comment",
+    "exotic-line-break:in-span-token", "exotic-line-break:in-string-token", "exotic-line-break:token-follows",
+    "tree:list-template",
     "tree:sequence-template", "tree:factorized",
 ]
 
-PIECES = ["ab", "c", " ", "\n", "+", "'q r'", "/*", "*/", "//x", "#"]
+# "\x0c" (form feed) and "\u2028" (line separator) are line boundaries for str.splitlines() but not for the
+# tokenizer contract (lines end at "\n" only): for the token patterns they are blanks / ordinary characters.
+# The lone quote lets them (and anything else) get inside a string token.
+PIECES = ["ab", "c", " ", "\n", "+", "'q r'", "/*", "*/", "//x", "#", "\x0c", "\u2028", "'"]
+BASIC = PIECES[:10]                               # thorough: one piece more over the basic pieces
 REDUCED = ["ab", " ", "\n", "+", "/*", "*/"]     # thorough: longer texts over the pieces that matter most
+ALPHABETS = {"full": PIECES, "basic": BASIC, "reduced": REDUCED}
 
 _TIERS = {
-    "quick": {"n": 5, "n_reduced": 0, "forms": ("str", "list")},
-    "thorough": {"n": 6, "n_reduced": 7, "forms": ("str", "list", "tuple")},
+    # spaces: (alphabet, length of the shard prefix, min pieces, max pieces); in the "full" space only the
+    # texts that contain at least one of the three pieces beyond BASIC are visited (the others belong to
+    # the "basic" space), so no text is visited twice
+    "quick": {"spaces": (("basic", 2, 2, 5), ("full", 2, 2, 4)), "forms": ("str", "list")},
+    "thorough": {"spaces": (("basic", 3, 2, 6), ("full", 2, 2, 5), ("reduced", 3, 7, 7)),
+                 "forms": ("str", "list", "tuple")},
 }
+N_BASIC = len(BASIC)
 
 
 def bounds(tier):
     t = _TIERS[tier]
-    return {"pieces": PIECES, "max_pieces": t["n"], "reduced_pieces": REDUCED if t["n_reduced"] else None,
-            "max_pieces_reduced": t["n_reduced"] or None, "forms": list(t["forms"]),
-            "configs": sorted(P.CONFIGS), "grammars": [g[0] for g in grammar_specs(P.CONFIGS["iii"])]}
+    return {"spaces": [{"pieces": ALPHABETS[a], "min_pieces": 0 if a == "basic" else (1 if a == "full" else lo),
+                        "max_pieces": hi,
+                        "restriction": "contains a piece beyond the basic ten" if a == "full" else None}
+                       for a, _, lo, hi in t["spaces"]],
+            "forms": list(t["forms"]), "configs": sorted(P.CONFIGS),
+            "grammars": [g[0] for g in grammar_specs(P.CONFIGS["iii"])]}
 
 
 def shards(tier):
     t = _TIERS[tier]
     sh = [("short",)]
-    k = len(PIECES)
-    if tier == "quick":
-        sh += [("full", (i, j)) for i in range(k) for j in range(k)]
-    else:
-        sh += [("full2", (i, j)) for i in range(k) for j in range(k)]
-        sh += [("full", (i, j, l)) for i in range(k) for j in range(k) for l in range(k)]
-        r = len(REDUCED)
-        sh += [("reduced", (i, j, l)) for i in range(r) for j in range(r) for l in range(r)]
+    for alpha, plen, lo, hi in t["spaces"]:
+        k = len(ALPHABETS[alpha])
+        if lo < plen:                   # the texts shorter than the shard prefix of this space
+            sh.append(("upto", alpha, lo, plen - 1))
+        sh += [("pfx", alpha, pfx, max(lo, plen), hi) for pfx in itertools.product(range(k), repeat=plen)]
     return sh
 
 
 def _texts(shard, tier):
-    t = _TIERS[tier]
-    kind = shard[0]
-    if kind == "short":
+    if shard[0] == "short":             # the empty text and the one-piece texts
         yield ""
         for p in PIECES:
             yield p
         return
-    if kind == "full2":           # thorough: the two-piece texts themselves (the 3-prefix shards start at 3)
-        yield "".join(PIECES[i] for i in shard[1])
+    if shard[0] == "upto":              # ("upto", alphabet, lo, hi): all texts of lo..hi pieces
+        _, alpha_name, lo, hi = shard
+        alpha = ALPHABETS[alpha_name]
+        for n in range(lo, hi + 1):
+            for idx in itertools.product(range(len(alpha)), repeat=n):
+                if alpha_name == "full" and max(idx) < N_BASIC:
+                    continue
+                yield "".join(alpha[i] for i in idx)
         return
-    alpha = PIECES if kind == "full" else REDUCED
-    nmax = t["n"] if kind == "full" else t["n_reduced"]
-    pfx = "".join(alpha[i] for i in shard[1])
-    lo = len(shard[1])
-    for extra in range(0, nmax - lo + 1):
-        if kind == "reduced" and lo + extra <= t["n"]:
-            continue                      # already part of the full-alphabet space
-        for rest in itertools.product(alpha, repeat=extra):
-            yield pfx + "".join(rest)
+    _, alpha_name, pfx_idx, lo, hi = shard
+    alpha = ALPHABETS[alpha_name]
+    pfx = "".join(alpha[i] for i in pfx_idx)
+    only_new = alpha_name == "full"
+    pfx_new = max(pfx_idx) >= N_BASIC
+    for extra in range(max(0, lo - len(pfx_idx)), hi - len(pfx_idx) + 1):
+        for rest in itertools.product(range(len(alpha)), repeat=extra):
+            if only_new and not pfx_new and (not rest or max(rest) < N_BASIC):
+                continue
+            yield pfx + "".join(alpha[i] for i in rest)
 
 
 # ------------------------------------------------------------------------------------ grammars
@@ -154,7 +176,21 @@ def grammar_specs(cfg):
         return {"E": [("OPT", "ITEMS", "OPT")], "ITEMS": [("ATOM", "ITEMS"), None],
                 "OPT": [(PL,), None], "ATOM": [(a,) for a in atoms]}
 
+    def g_rollback_last():
+        # ARG's non-empty alternative starts with a token that may also follow ARG (the next ITEM): both
+        # productions are in the parse-table cell; "ab c" takes (ATOM PL), consumes 'c', fails, and rolls
+        # back straight into the empty production
+        g = base()
+        g.update({"ITEM": [("ATOM", "ARG")], "ARG": [("ATOM", PL), None]})
+        return g
+
+    def g_rollback_first():
+        g = base()
+        g.update({"ITEM": [("PRE", "ATOM")], "PRE": [("ATOM", PL), None]})
+        return g
+
     return [("trailing-opt", g_trailing, {}), ("nullable-first-and-last", g_both_ends, {}),
+            ("rollback-empty-last", g_rollback_last, {}), ("rollback-empty-first", g_rollback_first, {}),
             ("factorized-smart", g_factorized, {}),
             ("factorized-plain", g_factorized, {"smart_factorization": False}),
             ("all-empty-inner", g_all_empty, {}), ("list-template", g_list, {}),
@@ -285,6 +321,12 @@ def _orig(node, inp, tx, what):
                    "its positions", got, exp)
 
 
+# symbols whose empty production shares a parse-table cell with a longer alternative that starts with an
+# ATOM token: an empty node of such a symbol directly before an ATOM token was reached by roll-back
+ROLLBACK_SYMBOLS = {"ARG": "tree:empty-node-by-rollback:last-child", "PRE": "tree:empty-node-by-rollback:first-child"}
+ATOM_TOKENS = {"WORD", "STRING", "KWC"}
+
+
 def walk(node, R, k, endpos, tx, inp, feats, registry, skipped_before):
     """Judge ``node`` and everything below; returns the index of the next unconsumed token of R."""
     registry.append((node, node.span))
@@ -293,6 +335,8 @@ def walk(node, R, k, endpos, tx, inp, feats, registry, skipped_before):
     if val is None:
         at = R[k].start if k < len(R) else endpos
         feats.add("tree:empty-node")
+        if node.name in ROLLBACK_SYMBOLS and k < len(R) and R[k].name in ATOM_TOKENS:
+            feats.add(ROLLBACK_SYMBOLS[node.name])
         if k >= len(R):
             feats.add("tree:empty-node-at-end")
         if k in skipped_before:
@@ -433,7 +477,7 @@ def run_case(text, form, cfg_name, acc, only_grammar=None, report=True):
     plist = parsers(cfg_name)
     case = {"text": text, "form": form, "cfg": cfg_name}
     feats = {"input:" + form, "cfg:" + cfg_name, "lines:one" if len(lines) == 1 else "lines:many"}
-    if any(l and l[-1] in P.SPACE_CHARS for l in lines):
+    if any(l and P.is_space(l[-1]) for l in lines):
         feats.add("trailing-blanks")
     viols = []
     acc.trans()
